@@ -378,3 +378,55 @@ def run_lowerfail(prog, ctx=None):
             res.ob("%s:lower(%s)" % (f.qn, arg), bad is None, f, (bad.get("l") if bad else c.get("l")) or f.line,
                    "" if bad is None else "after mpt_refcount_lower(%s) left other references, `%s` reports failure without mpt_refcount_raise(%s): the caller keeps a pointer the count no longer covers" % (arg, norm(show(bad, f)), arg))
     return res
+
+
+def run_raisefail(prog, ctx=None):
+    """RAISEFAIL: a function that took a reference with mpt_refcount_raise(R) (non-zero result) and then reports failure
+    (returns null / a negative status) has given it back with mpt_refcount_lower(R) — or handed the object on — on that path.
+    Checked where the function can also return a non-failure value after the raise (the reference then travels with it)."""
+    res = Result("RAISEFAIL")
+    files = set(ctx.get("files", [])) if ctx else None
+    from .rules_path import funcs_of
+    for f in funcs_of(prog, files):
+        T = f.T(f.ret)
+        if T.get("k") not in ("ptr", "int"):
+            continue
+        for bid, blk in f.blocks.items():
+            if not (blk.term and blk.term.get("cond") is not None and len(blk.succ) == 2):
+                continue
+            c = strip(blk.term["cond"], all_casts=True)
+            if blk.term.get("cls") != "BinaryOperator":
+                while c.get("k") == "bin" and c.get("op") in ("&&", "||"):
+                    c = strip(c["b"], all_casts=True)
+            neg = False
+            while c.get("k") == "un" and c.get("op") == "!":
+                neg = not neg
+                c = strip(c["e"], all_casts=True)
+            if not (c.get("k") == "call" and callee_name(c) == "mpt_refcount_raise" and c.get("args")):
+                continue
+            arg = norm(show(c["args"][0], f))
+            held = blk.succ[1 if neg else 0]
+            if held is None:
+                continue
+            lowers = set()
+            for b2, i2, e2 in f.elements():
+                if e2.get("k") == "call" and callee_name(e2) in ("mpt_refcount_lower",) and e2.get("args") and norm(show(e2["args"][0], f)) == arg:
+                    lowers.add(b2.id)
+                # an unref of the object that owns the counter gives the reference back as well
+                if e2.get("k") == "call" and (callee_name(e2) or "").endswith("unref"):
+                    lowers.add(b2.id)
+            reach = f.reachable_from(held, avoid=lowers)
+            fails, succ = [], []
+            for b2, i2, e2 in f.elements():
+                if b2.id in reach and e2.get("k") == "ret" and e2.get("e") is not None:
+                    v = cval(e2["e"])
+                    if v is not None and (v < 0 or (v == 0 and T.get("k") == "ptr")):
+                        fails.append(e2)
+                    else:
+                        succ.append(e2)
+            if not succ:
+                continue      # every exit after the raise reports failure?  not the shape this rule is about
+            bad = fails[0] if fails else None
+            res.ob("%s:raise(%s)" % (f.qn, arg), bad is None, f, (bad.get("l") if bad else c.get("l")) or f.line,
+                   "" if bad is None else "after mpt_refcount_raise(%s) succeeded `%s` reports failure without mpt_refcount_lower(%s): the count stays one too high and the object is never released" % (arg, norm(show(bad, f)), arg))
+    return res
